@@ -18,6 +18,7 @@
 #include <fcntl.h>
 #include <fstream>
 #include <iostream>
+#include <memory>
 #include <sstream>
 #include <sys/mman.h>
 #include <sys/personality.h>
@@ -128,10 +129,13 @@ int cmdRun( int argc, char* argv[])
    Stats        st;
    std::string  trace;
    initStats( st);
+   // the plan handed to the harness always lives on the heap, in a replay as
+   // in a batch (a harness must not depend on it, but if it did, both agree)
+   std::unique_ptr< Json>  heap_plan( new Json( p));
    g_inflight.batch = false;
-   g_inflight.plan = &p;
+   g_inflight.plan = heap_plan.get();
    g_inflight.stats = &st;
-   Result       r = harness().run( p, st, want_trace ? &trace : nullptr);
+   Result       r = harness().run( *heap_plan, st, want_trace ? &trace : nullptr);
    if (want_trace)
       std::cerr << trace << std::flush;
    Json  j = resultJson( r);
@@ -201,7 +205,8 @@ int cmdBatch( int argc, char* argv[])
       }
       const uint64_t  seed = runSeed( base, idx);
       if (marker) { marker[ 0] = idx; marker[ 1] = seed; }
-      Json    plan = harness().gen( seed, tier);
+      std::unique_ptr< Json>  heap_plan( new Json( harness().gen( seed, tier)));
+      Json&   plan = *heap_plan;
       g_inflight.batch = true;
       g_inflight.index = idx;
       g_inflight.seed = seed;
@@ -252,8 +257,8 @@ int cmdBatch( int argc, char* argv[])
       {
          Stats   scratch;
          initStats( scratch);
-         Json    again = Json::parse( plan.dump());
-         Result  r2 = harness().run( again, scratch, nullptr);
+         std::unique_ptr< Json>  again( new Json( Json::parse( plan.dump())));
+         Result  r2 = harness().run( *again, scratch, nullptr);
          ++rechecked;
          bool  same = (r2.outcome == r.outcome) && (r2.oracle == r.oracle) && (r2.hash == r.hash);
          if (!same) ++recheck_mismatch;
